@@ -1,10 +1,24 @@
 (** C02 — A process crash at any point leaves every cache directory valid and usable. (interim) *)
 From Coq Require Import List NArith ZArith String Bool.
 Import ListNotations.
-From Kismet Require Import FS.Fs FS.Prog Ops.Ops.
+From Kismet Require Import FS.Fs FS.Prog Ops.Ops Conc.Pool Conc.Effect Conc.Immut.
 (** A crash before the n-th call executes exactly the calls before it: the
     crashed run's trace is a prefix of the full run's trace. *)
 Theorem C02_crash_before_first_call : forall A (p : prog A) c k w o,
   p = Call c k -> significant c = true -> o_ncalls o = 0 ->
   run_crash p w o 0 = (w, o, [], true).
 Proof. intros A p c k w o -> Hs Hn. cbn [run_crash]. rewrite Hs, Hn. reflexivity. Qed.
+
+(** A participant that dies is one that no schedule selects again (the kernel
+    then closes its descriptors, which changes no file).  The interleaving
+    theorem of C01 quantifies over ALL schedules, so it covers every crash
+    point of every participant at filesystem-call granularity: whatever was
+    readable under a name without a read-write descriptor open on it (every
+    published value) reads the same after any crash and any further activity. *)
+Theorem C02_crash_anywhere_keeps_published_contents :
+  forall A (ps : list (prog A * oracle)) f0 sched_before_crash sched_after_crash i D,
+  fds_wf f0 -> Forall (fun po => disciplined (fst po)) ps ->
+  let st1 := run_sched sched_before_crash (spawn_all ps ([], f0)) in
+  data (snd st1) i = Some D -> i < next_ino (snd st1) -> NoRW i (snd st1) ->
+  data (snd (run_sched sched_after_crash st1)) i = Some D.
+Proof. exact @immutable_from_any_reachable_state. Qed.
